@@ -110,6 +110,10 @@ impl BBSplusPoKSignature {
         let D = parse_g1_projective(&bytes[96..144])
             .map_err(|_| Error::InvalidProofOfKnowledgeSignature)?;
 
+        if bool::from(Abar.is_identity() | Bbar.is_identity() | D.is_identity()) {
+            return Err(Error::InvalidProofOfKnowledgeSignature);
+        }
+
         let e_cap = Scalar::from_bytes_be(&bytes[144..176])
             .map_err(|_| Error::InvalidProofOfKnowledgeSignature)?;
         let r1_cap = Scalar::from_bytes_be(&bytes[176..208])
@@ -800,6 +804,12 @@ fn core_proof_verify<CS>(
 where
     CS: BbsCiphersuite,
 {
+    if bool::from(proof.Abar.is_identity() | proof.Bbar.is_identity() | proof.D.is_identity()) {
+        return Err(Error::PoKSVerificationError(
+            "Identity point in proof".to_owned(),
+        ));
+    }
+
     let init_res = proof_verify_init::<CS>(
         pk,
         proof,
